@@ -65,7 +65,14 @@ type Lemma struct {
 	Line int
 }
 
+type Macro struct {
+	Name   string
+	Params []string
+	Body   string
+}
+
 type Contracts struct {
+	Macros map[string]*Macro
 	Blocks map[string]*Block // key + "#" + sub
 	Order  []*Block
 	Lemmas []*Lemma
@@ -89,7 +96,8 @@ func normKey(recv, name string) string {
 }
 
 func ParseContracts(files []string) (*Contracts, error) {
-	cs := &Contracts{Blocks: map[string]*Block{}}
+	cs := &Contracts{Blocks: map[string]*Block{}, Macros: map[string]*Macro{}}
+	var lastMacro *Macro
 	for _, f := range files {
 		fh, err := os.Open(f)
 		if err != nil {
@@ -132,6 +140,27 @@ func ParseContracts(files []string) (*Contracts, error) {
 				lastClause = nil
 				continue
 			}
+			if strings.HasPrefix(body, "define ") {
+				// define NAME(p1, p2) = body   (textual macro, expanded in every later clause)
+				rest := strings.TrimPrefix(body, "define ")
+				eq := strings.Index(rest, "=")
+				lp := strings.Index(rest, "(")
+				rp := strings.Index(rest, ")")
+				if eq < 0 || lp < 0 || rp < lp || rp > eq {
+					return nil, fmt.Errorf("%s:%d: bad define", f, ln)
+				}
+				m := &Macro{Name: strings.TrimSpace(rest[:lp]), Body: strings.TrimSpace(rest[eq+1:])}
+				for _, prm := range strings.Split(rest[lp+1:rp], ",") {
+					if prm = strings.TrimSpace(prm); prm != "" {
+						m.Params = append(m.Params, prm)
+					}
+				}
+				cs.Macros[m.Name] = m
+				lastMacro = m
+				cur = nil
+				lastClause = nil
+				continue
+			}
 			if strings.HasPrefix(body, "lemma ") {
 				rest := strings.TrimPrefix(body, "lemma ")
 				// lemma <name> prop Cxx [vars a Int, b Val]: text
@@ -150,9 +179,14 @@ func ParseContracts(files []string) (*Contracts, error) {
 				cur = nil
 				continue
 			}
+			if cur == nil && lastMacro != nil && (strings.HasPrefix(body, "| ") || body == "|") {
+				lastMacro.Body += " " + strings.TrimSpace(strings.TrimPrefix(body, "|"))
+				continue
+			}
 			if cur == nil {
 				return nil, fmt.Errorf("%s:%d: clause outside block: %q", f, ln, body)
 			}
+			lastMacro = nil
 			if strings.HasPrefix(body, "| ") || body == "|" {
 				// continuation of the previous clause
 				if lastClause == nil {
@@ -186,9 +220,9 @@ func ParseContracts(files []string) (*Contracts, error) {
 				} else {
 					cur.Opts[rest] = "true"
 				}
-			case "requires", "ensures", "invariant", "modifies", "decreases", "ghost", "ghostset", "ghostinit", "assume", "hint", "ensures@panic", "callpure", "frame", "assert":
+			case "requires", "ensures", "invariant", "modifies", "decreases", "ghost", "ghostset", "ghostinit", "ghostbefore", "assume", "hint", "ensures@panic", "callpure", "frame", "assert":
 				cl := Clause{Kind: kw, Text: rest, Line: ln, File: f}
-				if m := labelRe.FindStringSubmatch(rest); m != nil && kw != "modifies" && kw != "ghost" && kw != "ghostset" && kw != "ghostinit" {
+				if m := labelRe.FindStringSubmatch(rest); m != nil && kw != "modifies" && kw != "ghost" && kw != "ghostset" && kw != "ghostinit" && kw != "ghostbefore" {
 					cl.Label = m[1]
 					cl.Text = m[2]
 				}
@@ -322,4 +356,81 @@ func splitTopLevel(s string, sep byte) []string {
 	}
 	parts = append(parts, s[start:])
 	return parts
+}
+
+var identRe = regexp.MustCompile(`[A-Za-z_][A-Za-z0-9_]*`)
+
+// expand macros textually (innermost-out, bounded depth)
+func (c *Contracts) Expand(text string) string {
+	for depth := 0; depth < 8; depth++ {
+		changed := false
+		for name, m := range c.Macros {
+			for {
+				idx := findCall(text, name)
+				if idx < 0 {
+					break
+				}
+				// find matching paren
+				lp := idx + len(name)
+				d := 0
+				rp := -1
+				for j := lp; j < len(text); j++ {
+					if text[j] == '(' {
+						d++
+					} else if text[j] == ')' {
+						d--
+						if d == 0 {
+							rp = j
+							break
+						}
+					}
+				}
+				if rp < 0 {
+					break
+				}
+				args := splitTopLevel(text[lp+1:rp], ',')
+				if len(args) == 1 && strings.TrimSpace(args[0]) == "" {
+					args = nil
+				}
+				if len(args) != len(m.Params) {
+					break
+				}
+				sub := map[string]string{}
+				for i, prm := range m.Params {
+					sub[prm] = "(" + strings.TrimSpace(args[i]) + ")"
+				}
+				body := identRe.ReplaceAllStringFunc(m.Body, func(id string) string {
+					if r, ok := sub[id]; ok {
+						return r
+					}
+					return id
+				})
+				text = text[:idx] + "(" + body + ")" + text[rp+1:]
+				changed = true
+			}
+		}
+		if !changed {
+			break
+		}
+	}
+	return text
+}
+
+func findCall(text, name string) int {
+	from := 0
+	for {
+		i := strings.Index(text[from:], name+"(")
+		if i < 0 {
+			return -1
+		}
+		i += from
+		if i == 0 || !(isIdentChar(text[i-1])) {
+			return i
+		}
+		from = i + 1
+	}
+}
+
+func isIdentChar(c byte) bool {
+	return c == '_' || (c >= 'a' && c <= 'z') || (c >= 'A' && c <= 'Z') || (c >= '0' && c <= '9')
 }
